@@ -222,6 +222,16 @@ Theorem C14_task_id_race_refuted :
 Proof. exact task_id_race_refuted. Qed.
 Print Assumptions C14_task_id_race_refuted.
 
+(* Cancel of a job that is not the table's entry for its number (displaced by an overlapping Task,
+   or already out) runs status / close / nil and leaves the table as it is: the live job registered
+   under that number stays tracked. *)
+Theorem C14_cancel_displaced_keeps_table : forall s h j s1 s2 s3,
+  getj s h = Some j -> lookup (jid j) (table s) <> Some h ->
+  cs_step (CSt h) s = Ok s1 -> cs_step (CClose h) s1 = Ok s2 -> cs_step (CStNil h) s2 = Ok s3 ->
+  held s1 = Some (CClose h) /\ table s3 = table s.
+Proof. exact cancel_displaced_keeps_table. Qed.
+Print Assumptions C14_cancel_displaced_keeps_table.
+
 (* ---- the theorems are about what the correspondence run evaluates --------------------------- *)
 (* apply_op (the function `check` runs on every step of every generated case) is the history
    "spawn the operation, let it run alone" of the same [step]. *)
